@@ -1,7 +1,13 @@
 #!/bin/bash
-# runs every thorough check once, sequentially; prints one summary line each
+# runs every thorough check once, sequentially, against a snapshot of /repo's HEAD (so that seeded changes tried in /repo
+# meanwhile do not disturb the sweep); prints one summary line each. The snapshot worktree is removed at the end.
 cd "$(dirname "$0")/.."
-for i in 05 12 13 14 18 19 17 16 06 11 10 09 15 08 04 01 02 03 07; do
-  s=$(date +%s); out=$(./check C$i --tier thorough 2>&1 | tail -1 | cut -c1-220); e=$(date +%s)
+SNAP=$(mktemp -d /tmp/ddsvt_sweeprepo_XXXX); rmdir "$SNAP"
+git -C /repo worktree add -q --detach "$SNAP" HEAD || exit 9
+trap 'git -C /repo worktree remove --force "$SNAP" 2>/dev/null; rm -rf "$SNAP"' EXIT
+export VERIF_REPO="$SNAP"
+echo "sweep against /repo $(git -C /repo rev-parse --short HEAD), verif $(git rev-parse --short HEAD 2>/dev/null)"
+for i in ${SWEEP_ORDER:-05 12 13 14 18 19 17 16 06 11 10 09 15 08 04 01 02 03 07}; do
+  s=$(date +%s); out=$(./check C$i --tier thorough 2>&1 | grep -E "cause=|tier=" | cut -c1-260 | tail -6); e=$(date +%s)
   echo "C$i $((e-s))s :: $out"
 done
